@@ -1,13 +1,11 @@
 """C06 — USE association imports exactly the accessible names."""
 import itertools
 import json
-import re
 import time
 
 from harness import core
 from harness.gen import c06gen as G
 from harness.impl import c06impl as I
-from harness.impl import fordrun as F
 
 IMPORTS = "From Ford Require Import Base.Str Sem.UseAssoc Corr.C06."
 THEOREMS = ["C06_partial", "C06_refuted_rename", "C06_refuted_rename_across_statements",
